@@ -634,6 +634,90 @@ fn scenario_seqwriter(rng: &mut Rng, out: &mut Out) {
     }
 }
 
+/// C11 / C03: the reader turn token. k readers are handed out in order over one in-memory
+/// source; threads use them in a seeded order. Reader i must see exactly the i-th slice of the
+/// source, whether its predecessors read their share, read part of it, or were dropped unused
+/// (a reader that reads less than its share is modelled by an EqualReader, which discards the
+/// rest when dropped - the way request bodies are framed).
+fn scenario_seqreader(rng: &mut Rng, out: &mut Out) {
+    let k = rng.range(2, 5);
+    let lens: Vec<usize> = (0..k).map(|_| rng.range(1, 40)).collect();
+    let mut data = Vec::new();
+    for (i, l) in lens.iter().enumerate() {
+        data.extend(std::iter::repeat(b'a' + i as u8).take(*l));
+    }
+    data.extend_from_slice(b"TAIL");
+    let mut b = SequentialReaderBuilder::new(std::io::BufReader::with_capacity(8, Cursor::new(data)));
+    let mut readers: Vec<Option<_>> = (0..k).map(|_| Some(b.next().unwrap())).collect();
+    let tail_reader = b.next().unwrap();
+    let mut order: Vec<usize> = (0..k).collect();
+    for i in (1..k).rev() {
+        order.swap(i, rng.below(i + 1));
+    }
+    let plans: Vec<usize> = (0..k).map(|_| rng.below(3)).collect(); // 0 read all, 1 read part, 2 read nothing
+    let results: Arc<Mutex<Vec<(usize, Vec<u8>)>>> = Arc::new(Mutex::new(Vec::new()));
+    let mut hs = Vec::new();
+    for idx in order.iter().cloned() {
+        let r = readers[idx].take().unwrap();
+        let (len, plan, results) = (lens[idx], plans[idx], results.clone());
+        hs.push(std::thread::spawn(move || {
+            let (mut er, _) = EqualReader::new(r, len);
+            let mut got = Vec::new();
+            let want = match plan {
+                0 => len,
+                1 => len / 2,
+                _ => 0,
+            };
+            let mut buf = [0u8; 7];
+            while got.len() < want {
+                let n = (want - got.len()).min(buf.len());
+                let m = er.read(&mut buf[..n]).unwrap();
+                if m == 0 {
+                    break;
+                }
+                got.extend_from_slice(&buf[..m]);
+            }
+            results.lock().unwrap().push((idx, got));
+            drop(er);
+        }));
+    }
+    for h in hs {
+        h.join().unwrap();
+    }
+    let mut tail = Vec::new();
+    let mut tr = tail_reader;
+    tr.read_to_end(&mut tail).unwrap();
+    out.eval(format!("seqreader|k{}|{:?}|{:?}", k, plans, order));
+    out.count("readers", k as u64);
+    for (idx, got) in results.lock().unwrap().iter() {
+        if got.iter().any(|c| *c != b'a' + *idx as u8) {
+            out.violation(
+                "C11/miri/seqreader/foreign-bytes",
+                format!("reader {} obtained bytes of another reader's share: {:?}", idx, String::from_utf8_lossy(got)),
+                format!("lens {:?} plans {:?} start order {:?}", lens, plans, order),
+            );
+        }
+        let want = match plans[*idx] {
+            0 => lens[*idx],
+            1 => lens[*idx] / 2,
+            _ => 0,
+        };
+        if got.len() != want {
+            out.violation("C11/miri/seqreader/short", format!("reader {} obtained {} of {} bytes", idx, got.len(), want), String::new());
+        }
+    }
+    if tail != b"TAIL" {
+        out.violation(
+            "C11/miri/seqreader/boundary",
+            format!("after all readers were used/dropped the source is not positioned after their shares: {:?}", String::from_utf8_lossy(&tail)),
+            format!("lens {:?} plans {:?} start order {:?}", lens, plans, order),
+        );
+    }
+    if out.samples.is_empty() {
+        out.samples.push(format!("seqreader: lens {:?} plans {:?} (0 all, 1 half, 2 none) start order {:?} tail {:?}", lens, plans, order, String::from_utf8_lossy(&tail)));
+    }
+}
+
 fn scenario_request_once(rng: &mut Rng, out: &mut Out) {
     let sink = Sink(Arc::new(Mutex::new(Vec::new())));
     let mut b = SequentialWriterBuilder::new(std::io::BufWriter::with_capacity(64, sink.clone()));
@@ -1031,7 +1115,7 @@ fn main() {
     let reps = match scenario.as_str() {
         "queue" | "queue_unblock" => 2,
         "queue_timing" => 2,
-        "seqwriter" | "request_once" => 3,
+        "seqwriter" | "request_once" | "seqreader" => 3,
         _ => 1,
     };
     for _ in 0..reps {
@@ -1042,6 +1126,7 @@ fn main() {
             "queue_unblock" => scenario_queue_unblock(&mut rng, &mut out),
             "queue_timing" => scenario_queue_timing(&mut rng, &mut out),
             "seqwriter" => scenario_seqwriter(&mut rng, &mut out),
+            "seqreader" => scenario_seqreader(&mut rng, &mut out),
             "request_once" => scenario_request_once(&mut rng, &mut out),
             "framing" => scenario_framing(&mut rng, &mut out),
             "pool_burst" => scenario_pool_burst(&mut rng, &mut out),
